@@ -145,7 +145,11 @@ def grep_forbidden():
         for fn in files:
             if fn.endswith(".lean"):
                 p = os.path.join(root, fn)
-                for k, line in enumerate(strip_lean_comments(open(p).read()).split("\n"), 1):
+                try:
+                    text = open(p).read()
+                except FileNotFoundError:      # a file renamed between the directory walk and the read
+                    continue
+                for k, line in enumerate(strip_lean_comments(text).split("\n"), 1):
                     if FORBIDDEN.search(line):
                         hits.append(f"{os.path.relpath(p, LEAN)}:{k}: {line.strip()}")
     return hits
